@@ -304,15 +304,57 @@ func runLookupStages(c *Ctx, r *RuleRun) {
 					continue
 				}
 				// follow plain jumps (rundefers blocks etc.) to see where this exit leads
-				t := s
+				t, prev := s, blk
 				for i := 0; i < 4 && len(t.Succs) == 1 && !isFoundRet(t); i++ {
 					if _, isJump := t.Instrs[len(t.Instrs)-1].(*ssa.Jump); !isJump {
 						break
 					}
-					t = t.Succs[0]
+					prev, t = t, t.Succs[0]
 				}
 				if isFoundRet(t) || isFoundRet(s) {
 					continue
+				}
+				// named results with one exit: on this way out the `found` result is the constant true
+				if len(t.Instrs) > 0 {
+					if ret, isRet := t.Instrs[len(t.Instrs)-1].(*ssa.Return); isRet && len(ret.Results) == 2 {
+						if ph, isPhi := retOperand(ret, 1).(*ssa.Phi); isPhi && ph.Block() == t {
+							viaTrue := false
+							for k, pb := range t.Preds {
+								if pb == prev && k < len(ph.Edges) && isConstBool(ph.Edges[k], true) {
+									viaTrue = true
+								}
+							}
+							if viaTrue {
+								continue
+							}
+						}
+						// … or (results kept in cells because the function defers) the block that leaves the loop has just
+						// stored true into the `found` cell
+						if ld, isLd := ret.Results[1].(*ssa.UnOp); isLd {
+							if cell, isCell := ld.X.(*ssa.Alloc); isCell {
+								setTrue := false
+								// the blocks on the way from the loop to the return (the break block itself lies outside the
+								// natural loop: it cannot come back)
+								chain := []*ssa.BasicBlock{blk}
+								for c := s; c != t && len(chain) < 6; c = c.Succs[0] {
+									chain = append(chain, c)
+									if len(c.Succs) != 1 {
+										break
+									}
+								}
+								for _, cb := range chain {
+									for _, i2 := range cb.Instrs {
+										if st, isSt := i2.(*ssa.Store); isSt && st.Addr == ssa.Value(cell) {
+											setTrue = isConstBool(st.Val, true)
+										}
+									}
+								}
+								if setTrue {
+									continue
+								}
+							}
+						}
+					}
 				}
 				if len(blk.Instrs) > 0 {
 					if _, isPanic := blk.Instrs[len(blk.Instrs)-1].(*ssa.Panic); isPanic {
